@@ -3,7 +3,7 @@
  "name": "get_journal_params",
  "props": ["C07"],
  "level": "U",
- "tier": "wip",
+ "tier": "quick",
  "harness": "h_get_journal_params",
  "functions": ["lib/ext2fs/mkjournal.c:ext2fs_get_journal_params", "lib/ext2fs/mkjournal.c:ext2fs_default_journal_size"],
  "assumes": ["loop-free; no contract enforced: harness CHECKs on the real function (which calls the real ext2fs_default_journal_size)",
